@@ -336,13 +336,16 @@ fn run_inner(case: &WCase, out: &mut WOutcome)
 {
     let n = case.n_entities.clamp(1, 4) as usize;
     let mut app = App::new();
-    app.add_plugins(ReactPlugin);
-    app.insert_react_resource(RA(0));
-    app.insert_react_resource(crate::universe::RB(0));
+    // the App extensions are written to work before or after `ReactPlugin` is added: both orders are generated
+    let plugin_last = case.n_entities % 2 == 0;
+    if !plugin_last { app.add_plugins(ReactPlugin); }
     app.add_world_reactor(WD::<0>).add_world_reactor(WD::<1>).add_world_reactor_with(W3, resource_mutation::<RA>());
     app.add_entity_reactor(E1).add_entity_reactor(E2).add_entity_reactor(E3).add_entity_reactor(E4);
     // a persistent reactor registered through the App extension
     app.add_reactor(broadcast::<Pay<1>>(), |mut r: AllReaders, mut n: Local<u32>| log_run(7, &mut r, &mut n, None));
+    if plugin_last { app.add_plugins(ReactPlugin); }
+    app.insert_react_resource(RA(0));
+    app.insert_react_resource(crate::universe::RB(0));
     let world = app.world_mut();
     let pool: Vec<Entity> = (0..n).map(|_| world.spawn_empty().id()).collect();
     ST.with(|s| { let mut s = s.borrow_mut(); *s = St::default(); s.pool = pool.clone(); });
